@@ -507,6 +507,38 @@ impl Model {
         }
     }
 
+    /// A VALID single-level HSS (message, signature, public key) triple for a tree of any height without
+    /// generating the tree: the one-time key of leaf q is derived as usual, the authentication path is
+    /// arbitrary (seed-derived bytes), and the public key's root is whatever leaf and path hash to.
+    /// RFC 8554 verification accepts it -- the verifier never sees more of a tree than one path.
+    pub fn synthetic_triple(&self, par: Param, q: u32, id: &[u8], seed: &[u8], msg: &[u8]) -> Option<(Vec<u8>, Vec<u8>)> {
+        let o = self.ots(par.ots)?;
+        let h = self.lms_h(par.lms)?;
+        if (q as u64) >= (1u64 << h) {
+            return None;
+        }
+        let c = self.randomizer(seed, id, q);
+        let mut sig = 0u32.to_be_bytes().to_vec();
+        sig.extend_from_slice(&q.to_be_bytes());
+        sig.extend_from_slice(&self.ots_sign(&o, id, q, seed, &c, msg));
+        sig.extend_from_slice(&par.lms.to_be_bytes());
+        let k = self.ots_pub(&o, id, q, seed);
+        let mut node = (1u32 << h) + q;
+        let mut tmp = self.hash(&[id, &node.to_be_bytes(), &D_LEAF, &k]);
+        let mut lvl = 0u32;
+        while node > 1 {
+            let sib = self.hash(&[b"synthetic authentication path", &lvl.to_be_bytes(), seed]);
+            sig.extend_from_slice(&sib);
+            let parent = node / 2;
+            tmp = if node & 1 == 1 { self.hash(&[id, &parent.to_be_bytes(), &D_INTR, &sib, &tmp]) } else { self.hash(&[id, &parent.to_be_bytes(), &D_INTR, &tmp, &sib]) };
+            node = parent;
+            lvl += 1;
+        }
+        let mut pk = 1u32.to_be_bytes().to_vec();
+        pk.extend_from_slice(&self.lms_pub(par, id, &tmp));
+        Some((sig, pk))
+    }
+
     // ---------------------------------------------------------------- HSS (section 6)
 
     pub fn parse_hss_sig(&self, s: &[u8]) -> Result<ParsedHss, String> {
